@@ -58,6 +58,21 @@ func c11PersistVariant(b kvBackend, sessions []string, key string, variant int) 
 		c.Add("who", "value of "+s, 0)
 		return x, c
 	}
+	if variant == 2 {
+		// the application's own data, under the same key as the session record
+		for _, s := range sessions {
+			h, err := st.open()
+			if err != nil {
+				return "", "", steps
+			}
+			h.SetSession(s)
+			h.SetPrefix(db.DATATYPE_USERDATA)
+			steps++
+			if err := h.Put(context.Background(), []byte(key), []byte("user data of "+s)); err != nil {
+				return "", "", steps
+			}
+		}
+	}
 	for _, s := range sessions {
 		h, err := st.open()
 		if err != nil {
@@ -86,12 +101,25 @@ func c11PersistVariant(b kvBackend, sessions []string, key string, variant int) 
 		h.SetSession(s)
 		pe := persist.NewPersister(h)
 		if variant == 1 {
+			// loaded into whatever the shared persister holds (no new content objects are handed over)
 			pe = shared.WithSession(s)
+		} else {
+			pe = pe.WithContent(state.NewState(2), cache.NewCache())
 		}
 		if variant == 2 {
+			// the record is where a persister on an untouched handle looks for it, and the application's data is intact
 			h.SetPrefix(db.DATATYPE_USERDATA)
+			steps++
+			if v, err := h.Get(context.Background(), []byte(key)); err != nil || string(v) != "user data of "+s {
+				return "persister-overwrote-user-data@" + b.Name, fmt.Sprintf("sessions %q each saved under record key %q (%s); the user data stored under that key for session %q now reads %q (%v)", sessions, key, vname, s, v, err), steps
+			}
+			h2, err := st.open()
+			if err != nil {
+				return "", "", steps
+			}
+			h2.SetSession(s)
+			pe = persist.NewPersister(h2).WithContent(state.NewState(2), cache.NewCache())
 		}
-		pe = pe.WithContent(state.NewState(2), cache.NewCache())
 		steps++
 		if err := pe.Load(key); err != nil {
 			return "persisted-session-lost@" + b.Name, fmt.Sprintf("sessions %q each saved under record key %q (%s); session %q cannot load its record: %v", sessions, key, vname, s, err), steps
